@@ -75,6 +75,8 @@ def sym_fcs(I, name, N, D, dtype='float', range_never_none=True, distinct_names=
         if key not in cache:
             cell = stamp(Seq('list', [SV(m.lo(i), 'real'), SV(m.hi(i), 'real')]))
             cell.birth = a.birth
+            cell.origin = (a.attrs['_range'], SV(z3.simplify(i), 'int'))
+            cell.owner = a
             cache[key] = cell
         return cache[key]
 
@@ -133,7 +135,11 @@ def struct_eq(I, a, b, depth=0):
     if a is None or b is None:
         return a is None and b is None
     if isinstance(a, Opaque) or isinstance(b, Opaque):
-        return isinstance(a, Opaque) and isinstance(b, Opaque) and a.tag == b.tag and a.payload == b.payload
+        if not (isinstance(a, Opaque) and isinstance(b, Opaque) and a.tag == b.tag):
+            return False
+        if isinstance(a.payload, z3.ExprRef) and isinstance(b.payload, z3.ExprRef):
+            return a.payload == b.payload
+        return a.payload is b.payload or (not isinstance(a.payload, z3.ExprRef) and not isinstance(b.payload, z3.ExprRef) and a.payload == b.payload)
     if isinstance(a, Inf) or isinstance(b, Inf):
         return isinstance(a, Inf) and isinstance(b, Inf) and a.sign == b.sign
     if isinstance(a, SymDict) or isinstance(b, SymDict):
